@@ -33,11 +33,11 @@ PROPS["C03"] = dict(
     level="proof",
     runner="C03",
     model_files=["Base.v", "Assets.v", "Select.v"],
-    proof_files=["Assets_proofs.v", "Select_proofs.v"],
+    proof_files=["Assets_proofs.v", "Select_proofs.v", "Select_flat.v", "Select_complete.v"],
     check_files=["C03_check.v"],
     theorems=["C03_constraints", "C03_meets_is_address_and_ref", "C03_single", "C03_many_covers",
-              "C03_single_complete", "C03_many_complete", "C03_window"],
-    partial=["completeness is proved for pick_single / pick_many over the candidate list they receive; that every candidate of the property (address/ref/token match, not taken, within the window) reaches that list through narrow_search_space + take is checked per case (clause 107), not yet a theorem"],
+              "C03_single_complete", "C03_many_complete", "C03_candidates_exact", "C03_single_block_served", "C03_window"],
+    partial=["that the candidates of the property reach coin selection (and nothing else does) is a theorem when the search space fits the window of 50 (C03_candidates_exact); beyond the window which UTxOs are topped up is the hash set's choice and completeness is not claimed by the property either; end-to-end completeness is stated for single-UTxO blocks (C03_single_block_served), for `many` blocks it is pick_many_complete over the candidate list plus clause 107 per case"],
     trusted_base=SELECT_TB,
     assumptions=["UTxO amounts and min_amount are non-negative", "stores hold at most 50 UTxOs (the property's window)"],
     check_names={101: "selected UTxOs exist in the store", 102: "from/ref constraints", 103: "single input: one UTxO covering min_amount alone",
@@ -49,10 +49,10 @@ PROPS["C04"] = dict(
     level="proof",
     runner="C04",
     model_files=["Base.v", "Assets.v", "Select.v"],
-    proof_files=["Assets_proofs.v", "Select_proofs.v"],
+    proof_files=["Assets_proofs.v", "Select_proofs.v", "Select_flat.v"],
     check_files=["C03_check.v"],
-    theorems=["C04_selections_disjoint", "C04_ignore_invariant", "C04_no_reuse_fails"],
-    partial=["the flattening of the selections into the body's input list (compile_inputs) is checked on the implementation's output (sum of sizes = distinct refs), not yet modelled"],
+    theorems=["C04_selections_disjoint", "C04_ignore_invariant", "C04_no_reuse_fails", "C04_flattened_inputs_distinct"],
+    partial=["that the body's input list is the concatenation of the blocks' selections is the model of compile_inputs (Compile.v, tied by C02/C08/C10/C14); the theorem says that this concatenation holds no reference twice, and the same is checked on the implementation's output (clause 106)"],
     trusted_base=SELECT_TB,
     assumptions=["input blocks of one transaction have distinct lower-cased names (see DESIGN 5.4)"],
     check_names={106: "a UTxO is bound to two input blocks"},
@@ -90,10 +90,11 @@ PROPS["C07"] = dict(
     level="proof",
     runner="C07",
     model_files=["Base.v", "Assets.v", "Select.v", "Tir.v", "Reduce.v", "Walk.v"],
-    proof_files=["Assets_proofs.v", "Tir_proofs.v", "Reduce_proofs.v", "Reduce_values.v"],
+    proof_files=["Assets_proofs.v", "Tir_proofs.v", "Reduce_proofs.v", "Reduce_values.v", "Reduce_closed.v", "Reduce_idem.v"],
     check_files=["C06_check.v"],
-    theorems=["C07_args_fees_commute", "C07_args_inputs_commute", "C07_fees_inputs_commute", "C07_tx_stages_commute", "C07_values_are_fixed_points"],
-    partial=["idempotence of reduce is proved for plain values (the shape of a fully applied and reduced template); for partially applied templates, and the independence from the position of the compiler-op and reduce stages, it is checked on every schedule explored (clauses 201, 202) and by model/implementation agreement on each schedule",
+    theorems=["C07_args_fees_commute", "C07_args_inputs_commute", "C07_fees_inputs_commute", "C07_tx_stages_commute", "C07_values_are_fixed_points",
+              "C07_reduce_idempotent_closed", "C07_apply_stages_fill_values"],
+    partial=["idempotence of reduce is a theorem for fully applied templates (C07_reduce_idempotent_closed); for partially applied templates, and the independence from the position of the compiler-op and reduce stages, it is checked on every schedule explored (clauses 201-203) and by model/implementation agreement on each schedule",
              "into_datum on a multi-UTxO set depends on hash-set order (pick oracle); generated sets carry one datum"],
     trusted_base=TIR_TB,
     assumptions=["schedules in which a compiler op's operand is not yet available end in a coercion error in model and implementation alike and are not compared"],
@@ -165,12 +166,12 @@ PROPS["C16"] = dict(
     level="proof",
     runner="C16",
     model_files=["Base.v", "Assets.v", "Select.v", "Tir.v", "PlutusData.v", "Interop.v"],
-    proof_files=["PlutusData_proofs.v", "Interop_proofs.v"],
+    proof_files=["PlutusData_proofs.v", "Interop_proofs.v", "Interop_refs.v", "Interop_assemble.v"],
     check_files=["C16_check.v"],
     theorems=["C16_int_dec", "C16_int_number", "C16_int_hex16", "C16_int_out_of_range_rejected", "C16_bool",
               "C16_bytes_hex", "C16_bytes_envelope_hex", "C16_bytes_envelope_base64", "C16_odd_hex_rejected",
-              "C16_request_declared_only"],
-    partial=["address (bech32/hex) and txid#index round trips, and the exact content of the assembled request map (args before env), are checked per case (clauses 101 of both legs), not yet theorems",
+              "C16_request_declared_only", "C16_request_args_then_env", "C16_request_args_win", "C16_utxo_ref", "C16_utxo_ref_index_out_of_range"],
+    partial=["address round trips go through bech32, an oracle of the model: checked per case (clause 101)",
              "'never panics' is a statement about serde_json / ciborium / the envelope decoders: observed on the malformed stream (clause 103)"],
     trusted_base=TB_COMMON + ["base64 and bech32 decoding are oracle arguments: the crates' own answers on the strings at hand are fed to the model",
                               "serde_json's parsing of numbers is environment: integers it holds as i64/u64 are JNum, everything else JFloat"],
@@ -202,9 +203,9 @@ PROPS["C02"] = dict(
     level="proof", runner="C02", model_files=COMPILE_MODEL, proof_files=["Assets_proofs.v", "PlutusData_proofs.v", "Compile_proofs.v"],
     check_files=["Compile_check.v"],
     theorems=["C02_u64_exact_or_error", "C02_u64_out_of_range_is_error", "C02_i64_exact_or_error", "C02_lovelace_exact_in_range",
-              "C02_native_exact_in_range", "C02_mint_exact_or_error", "C02_negative_lovelace_refuted", "C02_negative_native_refuted"],
-    partial=["the ledger balance equation of whole balanced templates is evaluated per case through the exact multi-asset denotation (clauses 101, 104), not stated as one theorem",
-             "i128 overflow inside CanonicalAssets + / - (assets.rs) is outside the model"],
+              "C02_native_exact_in_range", "C02_mint_exact_or_error", "C02_balance_equation", "C02_negative_lovelace_refuted", "C02_negative_native_refuted"],
+    partial=["the balance equation is a theorem about the multi-asset algebra (C02_balance_equation); that the compiled transaction of a whole balanced template carries those values is evaluated per case (clauses 101, 104)",
+             "i128 overflow in asset arithmetic is an error since the repair 3481f18 and is modelled as such (Reduce.chk_assets, expr_assets_from)"],
     trusted_base=COMPILE_TB, assumptions=["28-byte policies; amounts are closed integer expressions"],
     keep_ids=_only(lambda i: i in (1, 2) or 100 <= i < 120),
     classify=_cls({111: "output_lovelace_outside_u64", 112: "output_native_amount_negative_or_huge"}),
@@ -250,9 +251,10 @@ PROPS["C14"] = dict(
 PROPS["C11"] = dict(
     level="proof", runner="C11",
     model_files=["Base.v", "Assets.v", "Select.v", "Tir.v", "Reduce.v", "PlutusData.v", "Serde.v"],
-    proof_files=["PlutusData_proofs.v", "Tir_proofs.v", "Serde_proofs.v", "Serde_back.v"], check_files=["C11_check.v"],
-    theorems=["C11_decode_encode", "C11_wire_roundtrip", "C11_expression_roundtrip", "C11_wire_expression_roundtrip", "C11_layout_distinguishes_constructors"],
-    partial=["the way back from the data model to the IR is modelled for expressions (Serde_back.of_cval) and proved to invert the layout; for whole transactions and for serde-derive's actual Deserialize it is exercised on the implementation (decode, compare canonical forms, same parameters/queries, same result after identical application: clauses 101-103)",
+    proof_files=["PlutusData_proofs.v", "Tir_proofs.v", "Serde_proofs.v", "Serde_back.v", "Serde_tx.v"], check_files=["C11_check.v"],
+    theorems=["C11_decode_encode", "C11_wire_roundtrip", "C11_expression_roundtrip", "C11_wire_expression_roundtrip",
+              "C11_transaction_roundtrip", "C11_wire_transaction_roundtrip", "C11_layout_distinguishes_constructors"],
+    partial=["the way back from the data model to the IR is modelled (Serde_back.of_cval, Serde_tx.of_tx) and proved to invert the layout for every expression and every whole transaction; that serde-derive's actual Deserialize is that function is exercised on the implementation (decode, compare canonical forms, same parameters/queries, same result after identical application: clauses 101-103)",
              "'decoding garbage never panics' is a statement about ciborium: observed on the malformed stream (clause 104)"],
     trusted_base=TB_COMMON + ["serde-derive's layout and ciborium's encoder are re-implemented in Serde.v and compared byte for byte with to_bytes on every case"],
     assumptions=["integers are i128; lengths below 2^64"],
